@@ -13,7 +13,7 @@ def run(tier, seed, replay=None):
     rep.add_tlc(leg)
     gd = tlc_must_pass("GoodDay", "GoodDayMC.cfg", workers=6, timeout=900)   # the search loop terminates
     rep.add_tlc(gd)
-    n = 1500000 if full else 15000
+    n = 400000 if full else 15000
     info, events = validate_events(rep, "C07", ["--n", n], "c07", heap="10g" if full else "6g")
     rep.distinct_nontrivial = len({(e["site"]["lat"], e["date"]["dn"], e["p"]["pol"], e["p"]["meth"], e["p"]["fi"], e["p"]["ii"]) for e in events
                                    if any(t < 0 for t in e["r"]["t"]) or e["out"] != "ret7"})
